@@ -164,10 +164,28 @@ def check_object(obj, case) -> Optional[C.Failing]:
         # ... and the writer: the same document through a text stream, a binary stream and the string function, in both modes
         for se in (False, True):
             ref_doc = json.loads(object_store_to_json(st, stripped=se))
-            for carrier in ("text", "binary"):
-                buf2 = io.StringIO() if carrier == "text" else io.BytesIO()
-                write_aas_json_file(buf2, st, stripped=se)
-                raw = buf2.getvalue()
+            for carrier in ("text", "binary", "path-str", "path-bytes", "path-like"):
+                if carrier.startswith("path"):
+                    # (round 5) the argument forms of `file`: a path given as str, bytes or os.PathLike; the file exists already
+                    import os, pathlib, tempfile
+                    with tempfile.TemporaryDirectory(prefix="c18-") as td:
+                        fn = os.path.join(td, "doc.json")
+                        with open(fn, "w") as fh:
+                            fh.write("{}" + " " * 5000)
+                        arg = fn if carrier == "path-str" else os.fsencode(fn) if carrier == "path-bytes" else pathlib.Path(fn)
+                        write_aas_json_file(arg, st, stripped=se)
+                        with open(fn, "rb") as fh:
+                            raw = fh.read()
+                        # ... and read from the path in the matching mode, compared with the stream reader below
+                        via_path = list(read_aas_json_file(arg, failsafe=False, stripped=se))
+                        if len(via_path) != 1 or canon.diff(canon.canon(via_path[0]), canon.canon(
+                                next(iter(read_aas_json_file(io.BytesIO(raw), failsafe=False, stripped=se))))):
+                            return C.Failing(f"strip:json:file-api:reader:{carrier}:{'stripped' if se else 'full'}",
+                                             f"read_aas_json_file({carrier}, stripped={se}) differs from reading the same bytes from a stream", case)
+                else:
+                    buf2 = io.StringIO() if carrier == "text" else io.BytesIO()
+                    write_aas_json_file(buf2, st, stripped=se)
+                    raw = buf2.getvalue()
                 got_doc = json.loads(raw if isinstance(raw, str) else raw.decode("utf-8"))
                 if got_doc != ref_doc:
                     d = c03._first_diff(got_doc, ref_doc)
